@@ -518,9 +518,9 @@ def run_route(case):
 
 def subchecks():
     return [
-        Sub("packetizer", run_packetizer, strategy=st_case("packetizer"), examples=(700, 40000), rule="Packetizer vs byte-layout reference"),
-        Sub("depacketizer", run_depacketizer, strategy=st_case("depacketizer"), examples=(700, 40000), rule="Depacketizer fed with reference byte streams"),
-        Sub("loopback", run_loopback, strategy=st_case("loopback"), examples=(700, 40000), rule="Packetizer -> (FIFO) -> Depacketizer round trip"),
-        Sub("fifo", run_fifo, strategy=st_fifo, examples=(900, 40000), rule="PacketFIFO: whole packets, own params, released after the last beat"),
-        Sub("routing", run_route, strategy=st_route, examples=(900, 40000), rule="packet.Arbiter / Dispatcher atomic forwarding"),
+        Sub("packetizer", run_packetizer, strategy=st_case("packetizer"), examples=(700, 12000), rule="Packetizer vs byte-layout reference"),
+        Sub("depacketizer", run_depacketizer, strategy=st_case("depacketizer"), examples=(700, 12000), rule="Depacketizer fed with reference byte streams"),
+        Sub("loopback", run_loopback, strategy=st_case("loopback"), examples=(700, 12000), rule="Packetizer -> (FIFO) -> Depacketizer round trip"),
+        Sub("fifo", run_fifo, strategy=st_fifo, examples=(900, 14000), rule="PacketFIFO: whole packets, own params, released after the last beat"),
+        Sub("routing", run_route, strategy=st_route, examples=(900, 14000), rule="packet.Arbiter / Dispatcher atomic forwarding"),
     ]
